@@ -23,7 +23,8 @@ CLAIMS = {
          "among many short.", "DESIGN.md 5 (C02), 4.2 (L3, L5)"),
  "C03": ("Theorems (Props/C03.v): a machine is built from a stream of line reads only if the grammar yields no error, every header is well "
          "formed and every chain adds up on both sides, and it is then exactly the section-level machine; any grammar error refuses the file; "
-         "inconsistent contig sizes refuse it. Acceptance of canonical files is covered at line level by C13_file + C03_grammatical. Tied to the "
+         "inconsistent contig sizes refuse it; C03_accepts_canonical: the bytes of re-serialised sections (LF or CRLF) are accepted as exactly "
+         "those sections with the section-level verdict. Tied to the "
          "code by canonical files (must be accepted) and the corruption catalogue at sampled positions (must be refused).", "DESIGN.md 5 (C03)"),
  "C04": ("Five theorems (Props/C04.v): the drain of the step-through of any section with a well-formed header terminates and equals a "
          "six-line closed-form specification in offsets (every record list, all strands, values up to u64::MAX with checked moves); the k-th "
@@ -43,11 +44,12 @@ CLAIMS = {
          "ends with at most records+1 items; after an error the step-through yields nothing; plus _refuted witnesses that the pre-fix code was "
          "unbounded. Tied to the code by capped drains of all three iterators on generated streams/sections (incl. streams ending inside a "
          "section, sections not adding up or out of bounds).", "DESIGN.md 5 (C07)"),
- "C08": ("Partial. Three theorems (Props/C08.v): cutting an accepted stream after any number of whole lines fails or builds exactly the machine "
-         "of a whole-chain prefix; a hard read failure anywhere refuses the file; inserting Interrupted errors in any fault-free chunk schedule "
-         "leaves the stream of line reads unchanged. A cut inside a line is not proved in Coq; it is decided on every byte offset of every "
-         "generated file by the correspondence check and the truncation oracle (machine equal to some whole-chain prefix, or error).",
-         "DESIGN.md 5 (C08)"),
+ "C08": ("Five theorems (Props/C08.v): C08_truncation - for every byte string from which a machine is built and every cut offset k "
+         "(inside a field, a number, a terminator, anywhere) building from the first k bytes fails or yields exactly the machine of a "
+         "whole-chain prefix of the file's sections (proved through the reads of a truncated byte string, the parse of a proper prefix of a "
+         "line, numeral prefixes and the irrelevance of trailing empty blocks); the same for whole lines; a hard read failure anywhere refuses "
+         "the file; inserting Interrupted errors in any fault-free chunk schedule changes nothing. Tied to the code by cutting generated files "
+         "at every byte offset and injecting faults at every fill_buf index.", "DESIGN.md 5 (C08), 5A"),
  "C09": ("Three theorems (Props/C09.v), corollaries of the multiset theorem: for every file, interval and cut position the base pairings of the "
          "whole are the multiset union of those of the two parts; a base maps identically through any two intervals containing it; every "
          "returned reference interval lies inside the requested one. Tied to the code on splits at block boundaries, inside gaps, at the ends, and "
@@ -61,8 +63,9 @@ CLAIMS = {
          "verbatim comparison.", "DESIGN.md 5 (C11)"),
  "C12": ("Three theorems (Props/C12.v): for every chunk/interrupt schedule without a hard failure the stream of line reads equals that of the "
          "flat bytes (std read_until transcribed); a raw read reports exactly the bytes consumed and returns the text without LF / CRLF; a blank "
-         "line between sections changes the grammar's items only in quoted line numbers. LF vs CRLF and final-newline independence are covered by "
-         "the raw-read theorem plus the correspondence check over all encodings and chunkings.", "DESIGN.md 5 (C12), 4.2 (L8)"),
+         "line between sections changes the grammar's items only in quoted line numbers; C12_eol: the same text lines terminated by LF or by CRLF "
+         "are read back as the same texts. Final-newline independence is C12_raw_count (the last terminator may be absent) plus the "
+         "correspondence check over all encodings and chunkings.", "DESIGN.md 5 (C12), 4.2 (L8)"),
  "C13": ("Six theorems (Props/C13.v): decimal print/parse, header, data-record and line round trips for everything the parser accepts (hence "
          "canonical text prints back byte-identically), and re-serialised sections parse back to equal sections for every accepted file. Tied to "
          "the code with non-canonical spellings (leading zeros, '+'), odd contig names and whole files.", "DESIGN.md 5 (C13), 4.2 (L7)"),
